@@ -723,11 +723,8 @@ func (fr *Frame) exitCutFor(b *ssa.BasicBlock) *loopInfo {
 			encFail("loop %d has %d exit blocks; an exit clause needs exactly one", li.ordinal, len(exits))
 		}
 		if exits[0] == b {
-			for _, p := range b.Preds {
-				if !li.body[p] {
-					encFail("loop %d: the exit block is also entered from outside the loop; exit clause not supported", li.ordinal)
-				}
-			}
+			// (the exit block may also be entered from before the loop, e.g. a zero-iteration guard: the clauses are
+			// then proved for the merged state, which covers that path as well)
 			return li
 		}
 	}
